@@ -57,6 +57,7 @@ func checkC02(c *Ctx) {
 	r.Import("C15.", "C02.g", "the inferred types are printed by the documented type mapping (the C15 conditions: base-type table, printer templates, grammar of annotations)", 20, func() { checkC15(c) })
 	r.Rule("C02.a2", "the type-variable collector and the substitution visit the same components of every FType constructor (payload fields carrying types, unfolding through the info table)", 5)
 	r.Rule("C02.c2", "every type-variable generator handed to a function is applied or passed on by it (fresh instantiation is not silently replaced by reuse of names)", 10)
+	r.Rule("C02.h", "typing rules of expressions (ExprToType and its helpers) have their reviewed closed forms", 15)
 	r.Rule("C02.e", "no unification obligation is dropped: every call result carrying a []UniRel is bound, returned or passed on", 40)
 	f := c.LoadFC("fc")
 	if f == nil {
@@ -153,6 +154,8 @@ func checkC02(c *Ctx) {
 	tv.checkTraversal("C02.b", "transExpr", []string{"transBlock", "transStmt", "transExprNE"}, 6)
 	// (c)
 	c.checkPins(f, "C02.c", c02Pins)
+	// (h)
+	c.checkPins(f, "C02.h", exprTypePins)
 	// (d)
 	if nf, fn := f.NF("parseLetFuncDef"); fn != nil {
 		const P = "parseParams(psNext(psPushScope(psConsume(var:New_TokenType_LET, p1))))"
